@@ -518,6 +518,25 @@ def execute(plan):
     if ref_exc is not None:
         probe("skipped_inadmissible")
         return finish()
+    # ---- decomposing a grid must leave the grid object it was given as it was: the same grid object is decomposed
+    # (also trivially, one chunk per axis), decomposed again, and then used as a whole
+    if plan["script"] == "operator" and viol is None:
+        from pde.grids._mesh import GridMesh
+
+        g_user = _build_grid(gspec)
+        try:
+            GridMesh.from_grid(g_user, [1] * g_user.num_axes)
+            GridMesh.from_grid(g_user, plan["decomposition"])
+            GridMesh.from_grid(g_user, [1] * g_user.num_axes)
+            f_user = _field(plan, g_user, plan["rank_in"])
+            again = np.array(f_user.apply_operator(plan["op"], _bc(plan["bc"], gspec)).data, copy=True)
+            if not np.array_equal(again, ref["op"], equal_nan=True):
+                fail("C17/grid-changed-by-decomposition", f"{plan['op']} on {gspec} gives another result after the grid object was decomposed "
+                     f"(trivially and as {plan['decomposition']})")
+            probe("grid_reused_after_decomposition")
+        except Exception as err:  # noqa: BLE001
+            fail("C17/grid-changed-by-decomposition", f"after GridMesh.from_grid(grid, [1,..]) and from_grid(grid, {plan['decomposition']}) the same grid object "
+                 f"can no longer be used as a whole: {plan['op']} with bc {plan['bc']} on {gspec} raised {type(err).__name__}: {err}")
 
     # ---- the simulated MPI job
     outcome, results, sim = ranks.run_ranks(plan["size"], plan["sched"], _rank_program, plan)
